@@ -31,5 +31,9 @@ def run(ctx):
             ctx.count("layout_ppn%d_ord%d" % (ppn, ordering))
         commgen.run_and_judge(ctx, cases, P, tag="tap")
     # PPN not dividing the process count: known finding (construction deadlocks / sends to a non-existent rank)
-    c = commgen.gen_case(rng, "u3_0", 3, mode=1, ppn=2, ordering=1)
-    commgen.run_and_judge(ctx, [c], 3, tag="tap:uneven_nodes", timeout=25)
+    fc = [0, 3, 5, 9]; cols = [[3, 8], [0, 1, 5], [2, 4]]
+    toks = ["u3_0", "comm", 1, 2, 1, 0, 0, 3] + fc
+    for cs in cols: toks += [len(cs)] + cs
+    c = dict(cid="u3_0", P=3, N=9, fc=fc, cols=cols, lids=[list(range(fc[p], fc[p + 1])) for p in range(3)], with_on=0,
+             derive=0, mode=1, ppn=2, ordering=1, line=" ".join(str(x) for x in toks))
+    commgen.run_and_judge(ctx, [c], 3, tag="tap:uneven_nodes", timeout=20)
